@@ -138,7 +138,7 @@ let () =
   (try while true do lines := input_line stdin :: !lines done with End_of_file -> ());
   let lines = Array.of_list (List.rev !lines) in
   let nl = Array.length lines in
-  let ncases = ref 0 and nevents = ref 0 and nscopes = ref 0 in
+  let ncases = ref 0 and nevents = ref 0 in
   let stats = Hashtbl.create 16 in
   let bump k = Hashtbl.replace stats k (1 + (try Hashtbl.find stats k with Not_found -> 0)) in
   let i = ref 0 in
@@ -499,26 +499,7 @@ let () =
       let h = Digest.to_hex (Digest.string (String.concat "\n" (List.map (fun b -> String.concat " " b.evl) blocks))) in
       Printf.printf "CASE %s %d %d %s %s\n" caseid !evno (Hashtbl.length kinds)
         (b01 (Hashtbl.length kinds >= 3 && !changed)) h
-    end else if String.length l >= 6 && String.sub l 0 6 = "scope " then begin
-      (* scope <constructor id> <remote is loopback 0|1> <scope the real constructor assigned: 1 local, 0 non-local, -1 unknown> <constructor> <remote> *)
-      (match fields l with
-       | "scope" :: c :: lb :: impl :: rest ->
-           incr nscopes;
-           let desc = String.concat " " rest in
-           let show = function Some true -> "1" | Some false -> "0" | None -> "?" in
-           let m = transport_scope (n_of_dec c) (lb = "1") in
-           let sp = spec_local (n_of_dec c) (lb = "1") in
-           if impl <> show (Some sp) then
-             Printf.printf "ORACLE C09 scope 0 scope-class:%s:%s | transport constructor %s gave scope %s to a face whose remote address is %s (specified: %s)\n"
-               (match rest with n :: _ -> n | [] -> c) (if lb = "1" then "loopback" else "remote") desc
-               (if impl = "1" then "Local" else if impl = "0" then "NonLocal" else "Unknown")
-               (if lb = "1" then "a loopback address" else "not a loopback address") (if sp then "Local" else "NonLocal");
-           if show m <> impl then
-             Printf.printf "DIVERGE scope 0 scope-class model=[%s] impl=[%s %s]\n" (show m) impl desc
-       | _ -> ());
-      incr i
     end else incr i
   done;
-  if !nscopes > 0 then Printf.printf "SCOPES %d\n" !nscopes;
   Hashtbl.iter (fun k v -> Printf.printf "STAT %s %d\n" k v) stats;
   Printf.printf "DONE %d %d\n" !ncases !nevents
